@@ -839,7 +839,8 @@ orc_compiler_rewrite_insns (OrcCompiler *compiler)
         ORC_STATIC_OPCODE_N_DEST > ORC_N_INSNS) {
       orc_compiler_error (compiler,
           "too many instructions after inserting loads and stores");
-      compiler->result = ORC_COMPILE_RESULT_UNKNOWN_COMPILE;
+      /* nothing has been built that emulation could run: fatal */
+      compiler->result = ORC_COMPILE_RESULT_UNKNOWN_PARSE;
       return;
     }
 
@@ -1289,7 +1290,7 @@ orc_compiler_dup_temporary (OrcCompiler *compiler, int var, int j)
 
   if (i >= ORC_N_COMPILER_VARIABLES) {
     orc_compiler_error (compiler, "too many temporary variables");
-    compiler->result = ORC_COMPILE_RESULT_UNKNOWN_COMPILE;
+    compiler->result = ORC_COMPILE_RESULT_UNKNOWN_PARSE;
     return var;
   }
 
@@ -1310,7 +1311,7 @@ orc_compiler_new_temporary (OrcCompiler *compiler, int size)
   if (i >= ORC_N_COMPILER_VARIABLES) {
     /* hand back the last slot again: the compile is abandoned anyway */
     orc_compiler_error (compiler, "too many temporary variables");
-    compiler->result = ORC_COMPILE_RESULT_UNKNOWN_COMPILE;
+    compiler->result = ORC_COMPILE_RESULT_UNKNOWN_PARSE;
     return ORC_N_COMPILER_VARIABLES - 1;
   }
 
